@@ -216,6 +216,13 @@ func (g *Gen) call(v *ssa.Call, c *ssa.CallCommon, ins ssa.Instruction) {
 	for i, a := range args {
 		names[fmt.Sprintf("arg%d", i)] = a
 	}
+	if !c.IsInvoke() {
+		if _, isFn := c.Value.(*ssa.Function); !isFn {
+			if _, isB := c.Value.(*ssa.Builtin); !isB {
+				names["fnvalue"] = g.term(c.Value)
+			}
+		}
+	}
 	con := g.P.cs.Funcs[ci.key]
 	if con != nil && len(con.Params) > 0 {
 		for i, f := range con.Params {
@@ -389,6 +396,11 @@ func (g *Gen) applyModifies(target string, env *Env, ci calleeInfo) {
 	target = strings.TrimSpace(target)
 	if target == "*" {
 		g.havocAll(nil)
+		g.havocSV("$epoch", "Int")
+		return
+	}
+	if target == "heap" { // every heap location (ghost state is kept)
+		g.havocAll(func(n string) bool { _, isGhost := g.P.cs.Ghosts[n]; return isGhost })
 		g.havocSV("$epoch", "Int")
 		return
 	}
@@ -890,7 +902,7 @@ func (g *Gen) frameCheck(x *ssa.Return) {
 	elems := map[string][]string{}
 	for _, m := range g.con.Modifies {
 		m = strings.TrimSpace(m)
-		if m == "*" {
+		if m == "*" || m == "heap" {
 			return
 		}
 		if _, ok := g.P.cs.Ghosts[m]; ok {
